@@ -328,6 +328,52 @@ func fieldsOf(m *dhcpv4.DHCPv4) string {
 	return fmt.Sprintf("sid=%s mask=%s router=%v dns=%s lease=%d", m.ServerIdentifier(), net.IP(m.SubnetMask()), m.Router(), strings.Join(dns, ","), int(m.IPAddressLeaseTime(0).Seconds()))
 }
 
+// fpSweep runs one cached client's DISCOVER with every IPv4 Identification value (the fast path
+// copies the field into its reply, so the reply's header checksum depends on it) and counts the
+// transmitted replies whose IP header checksum or total length is wrong.
+func (in *inst) fpSweep() map[string]any {
+	st := in.fp
+	res := map[string]any{"ran": false, "bad": 0, "first": -1, "tx": 0}
+	c := 0
+	for k := 1; k <= in.s.NClients; k++ {
+		if u, ok := in.lastAck[k]; ok && u >= 0 {
+			c = k
+			break
+		}
+	}
+	if c == 0 {
+		return res
+	}
+	res["ran"] = true
+	p := FPProbe{C: c, Msg: "DISCOVER", OptLen: 100, IHL: 5, Layout: "first"}
+	base := in.s.fpFrame(p, in.s.unitIP(in.lastAck[c]), 0x5eed0001)
+	st.drv.SetTime(1000 * 1e9)
+	bad, first, tx := 0, -1, 0
+	for id := 0; id < 65536; id++ {
+		f := append([]byte{}, base...)
+		binary.BigEndian.PutUint16(f[18:], uint16(id)) // IP identification
+		f[15] = byte(id >> 3)                         // TOS varies along
+		f[24], f[25] = 0, 0
+		binary.BigEndian.PutUint16(f[24:], ipChecksum(f[14:34]))
+		v, after, _, err := st.drv.Run("xdp", f, 0)
+		if err != nil {
+			panic(err)
+		}
+		if v != 3 || len(after) < 34 {
+			continue
+		}
+		tx++
+		if ipChecksum(after[14:34]) != 0 || int(binary.BigEndian.Uint16(after[16:])) != len(after)-14 {
+			bad++
+			if first < 0 {
+				first = id
+			}
+		}
+	}
+	res["bad"], res["first"], res["tx"] = bad, first, tx
+	return res
+}
+
 // fpObserve runs the battery; own[c] = unit last ACKed by the slow path.
 func (in *inst) fpObserve() []map[string]any {
 	st := in.fp
